@@ -447,10 +447,6 @@ func main() {
 	meta := vh.NewMeta("corpus; mode S: 2 writers x 1-3 STREAM subscribers x 1-4 writes (+0-3 pre-populated leaves) on a 4-leaf schema over 2 targets, every thread parked at the verif hook points (registered / before-walk / before-sync / before-next), in the feed callback and in Send, schedules chosen blindly (seeded random walks; depth-first enumeration of small configurations), every released step validated against the transition system inside Coq; mode A: the same shapes (overlapping queries allowed, up to 8 writes) free-running with seeded pauses at the same points, judged at quiescence. distinct = distinct (ops, subscriptions, schedule, streams); non-trivial = some subscriber received a response after its sync")
 	e := &emitter{dir: o.Out, cf: vh.NewCaseFile(), meta: meta, limit: 400}
 
-	if os.Getenv("C04_DEBUG") != "" {
-		dbg, _ := os.Create(o.Out + "/debug.txt")
-		debugStates = func(g int64, st string) { fmt.Fprintf(dbg, "unknown goroutine %d state %q\n", g, st) }
-	}
 	if o.Replay != "" {
 		for _, c := range readCases(o.Replay) {
 			e.replay(c, "")
